@@ -406,14 +406,12 @@ func init() {
 						c.Check(name == "Association.readLoop$1", key, c.Pos(in), "closed in the read loop's exit closure (runs once per association)", "close("+f.Name()+") outside the read-loop exit closure")
 					case "writeNotify", "readTimeoutCancel":
 						// followed in the same block by a store replacing the field
-						replaced := false
-						blk := in.Block()
-						for i := instrIndex(in) + 1; i < len(blk.Instrs); i++ {
-							if st, ok := blk.Instrs[i].(*ssa.Store); ok && fieldOfAddr(st.Addr) == f {
-								replaced = true
-							}
-						}
-						c.Check(replaced, key, c.Pos(in), "channel replaced (re-made / nil) right after the close under the same lock", "close("+f.Name()+") without replacing the channel: the next close panics")
+						// on every path from the close, the field is overwritten before the function returns
+						replaced, _ := MustPass(in, func(x ssa.Instruction) bool {
+							st, ok := x.(*ssa.Store)
+							return ok && fieldOfAddr(st.Addr) == f
+						}, nil)
+						c.Check(replaced, key, c.Pos(in), "channel replaced (re-made / nil) on every path after the close, under the same lock", "close("+f.Name()+") without replacing the channel: the next close panics")
 					default:
 						c.Fail(key, c.Pos(in), "close of "+f.Name()+": not in the close-once table")
 					}
